@@ -159,8 +159,10 @@ def run_native(ck):
                     ck.ambiguous += 1
     ck.extra["native_random_under_sanitizers"] = dict(cases=nrand, compared_with_model=nmodel, shapes="70 % ≤ 8×8, up to 40×72",
                                                       ihmax="1 … 250", level="exploration, not proof")
-    ck.assumptions.append("native memory safety/termination of pt_fld is explored (ASan/UBSan on the real C + bounds-checked Lean "
-                          "transliteration on the same inputs), not proved; Props/C20.lean proves ptnghb/ptsort/levels/fifo index ranges")
+    ck.assumptions.append("memory safety and termination of the Lean transliteration of partition/ptsort/pt_fld are PROVED for all inputs "
+                          "(Props/C20fld.lean: partition_memory_safe, partition_terminates); that the real C behaves like the "
+                          "transliteration is carried by the exact stream comparison of C04 and by ASan/UBSan runs of the real C here "
+                          "(exploration)")
 
 
 def run_check():
